@@ -32,6 +32,11 @@ def run_config(ctx, cfg):
 
 
 # ------------------------------------------------------------------------------ _update_statistics
+def _grad_mode():
+    import torch
+    return torch.is_grad_enabled()
+
+
 def _chunk(vc, tag, n):
     """Symbolic chunk of n (real-sorted, n in {0,1} or >= 2) samples with sum S and sum of squares Q:
     returns (mean, variance, S, Q) with variance NaN when n == 1."""
@@ -255,6 +260,7 @@ def _statistics(ctx, cfg):
             class Obs:
                 def statistics_from_samples(self, nn_state, samples):
                     vc.check("chunk/statistics are taken of the chains just drawn", samples is w.last_drawn)
+                    vc.check("chunk/the observable is evaluated in the caller's autograd mode (an estimator may differentiate)", _grad_mode() is True)
                     d = {"mean": vc.fresh_real("cm"), "variance": vc.fresh_real("cv"), "std_error": None, "num_samples": w.nc}
                     box["accs"]["obs"].pending = d
                     return d
@@ -388,6 +394,7 @@ def _system(ctx, cfg):
 
             def statistics_from_samples(self, nn_state, samples):
                 vc.check("chunk/each observable evaluates the chains just drawn (same objects as alone)", samples is w.last_drawn)
+                vc.check("chunk/each observable is evaluated in the caller's autograd mode, as alone (an estimator may differentiate)", _grad_mode() is True)
                 d = {"mean": vc.fresh_real("cm" + self.name), "variance": vc.fresh_real("cv" + self.name)}
                 owner[id(d["mean"])] = self.name
                 accs[self.name].pending = d
